@@ -188,7 +188,7 @@ extern int mpt_axis_set(MPT_STRUCT(axis) *ax, const char *name, MPT_INTERFACE(co
 		return len < 0 ? len : 0;
 	}
 	if (!strcasecmp(name, "int") || !strcasecmp(name, "intv") || !strcasecmp(name, "intervals")) {
-		const char *l;
+		const char *l = 0;
 		if (!src) {
 			ax->intv = def_axis.intv;
 			ax->format &= ~MPT_ENUM(TransformLg);
